@@ -99,6 +99,12 @@ CHECKS = {
                      "resolved setting satisfies the specification's validity predicate and keeps the given entries; every valid request is accepted. "
                      "Faithfulness of each valid layout is the subject of C01-C03 (thorough tiers enumerate all 401 layouts). Bounded model checking.",
                 design='DESIGN.md 7/C19'),
+    'C13': dict(text="The real SegyioEmulator / accessor classes are evaluated on the documented expression grammar with symbolic subscripts "
+                     "(line numbers unbounded; slice bounds over existing line numbers with every combination of start/stop/step present; ordinal "
+                     "slices with bounds in [-n-2, n+2] and steps -3..3; iteration, len, coordinate sub-volumes with steps) on ascending / descending, "
+                     "unit / non-unit axes; results (which lines or ordinals, order, count, acceptance) are compared with a model of segyio's own slice "
+                     "semantics read from segyio/line.py and validated against real segyio in every replay. Bounded model checking.",
+                design='DESIGN.md 7/C13'),
 }
 
 NOT_YET = "check not built yet in this session (work in progress; see DESIGN.md section 11 build order)"
